@@ -1085,7 +1085,8 @@ theorem decRun_enters (t : Tick) (ht : EntersOK t) (e : Env) (w : Store) (i : Na
       split at h
       · simp only [pure, Except.pure, Except.ok.injEq, Prod.mk.injEq] at h
         obtain ⟨_, _, rfl⟩ := h
-        have hS : NoEnter (if cc.1.status = .running then stopInv cc.1 else (cc.1, [])).2 := by
+        have hS : NoEnter (if (decUpdate e k0 c1.status).2.1 = .invalid ∨ cc.1.status = .running
+            then stopInv cc.1 else (cc.1, [])).2 := by
           split
           · exact stopInv_noEnter _
           · exact NoEnter.nil
